@@ -13,6 +13,7 @@
 //   obs <i> <dirty 0|1|x> nb=<j,j,..|-> rib=<entry;entry..|-> adv=<d/nh/cost/other;..|-> ent=<d/cost/nh;..|->
 //        entry = d/nh1/l1/nh2/l2/dirty/h=c,h=c..      (everything sorted by key)
 //   chkfixed <r>   >= 2*16+maxdist+1 rounds: the implementation's whole state must be a fixed point
+//   chkpair <i> <j>  after a restart of j and its Sync Interest + Data: i's costs through j must be what j now offers
 //   chkquiet       nobody has an unfetched announcement left (notification-driven schedule ran to quiescence)
 //   chk <r>        the harness claims >= r complete rounds since the last topology change (runner verifies)
 //   chkclean <r>   same, and no loss event happened since the start of the case
@@ -248,8 +249,8 @@ func (w *world) obs(i int, dS string) {
 		}
 		sqS[k] = w.id(h) + ":" + u(sq)
 	}
-	fmt.Fprintf(w.w, "obs %s %s nb=%s rib=%s adv=%s ent=%s sq=%s\n", w.id(w.hash[i]), dS,
-		dashed(nbS, ","), dashed(ribS, ";"), dashed(advS, ";"), dashed(entS, ";"), dashed(sqS, ","))
+	fmt.Fprintf(w.w, "obs %s %s nb=%s rib=%s adv=%s ent=%s sq=%s ms=%d\n", w.id(w.hash[i]), dS,
+		dashed(nbS, ","), dashed(ribS, ";"), dashed(advS, ";"), dashed(entS, ";"), dashed(sqS, ","), r.Vf18AdvertSeq())
 }
 
 func dashed(xs []string, sep string) string {
@@ -283,6 +284,7 @@ func (w *world) dirtyOf(i int) string {
 }
 
 func (w *world) evRup(i int) {
+	w.evClock()
 	fmt.Fprintf(w.w, "ev rup %s\n", w.id(w.hash[i]))
 	w.evc++
 	if w.rt[i] == nil {
@@ -421,8 +423,12 @@ func (w *world) evDeadMulti(i int, js []int) {
 	}
 	victim := map[int]bool{}
 	w.evClock()
-	for _, j := range js {
-		fmt.Fprintf(w.w, "ev dead %s %s\n", w.id(w.hash[i]), w.id(w.hash[j]))
+	for k, j := range js {
+		kind := "dead"
+		if k > 0 {
+			kind = "deadmore" // same sweep: one change notification for all of them
+		}
+		fmt.Fprintf(w.w, "ev %s %s %s\n", kind, w.id(w.hash[i]), w.id(w.hash[j]))
 		w.evc++
 		victim[j] = true
 	}
@@ -743,6 +749,57 @@ func (w *world) seqScenario() {
 	}
 }
 
+// a router makes several table changes in quick succession, is torn down and comes back (a fresh NewRouter with the
+// same name) well inside its neighbours' dead interval, with a smaller table; the neighbours, driven only by the
+// sequence numbers in its Sync Interests, must fetch the new advertisement and drop what it no longer offers
+func (w *world) restartScenario() {
+	ps := w.pairs()
+	if len(ps) == 0 {
+		return
+	}
+	p := ps[w.r.Intn(len(ps))]
+	i, j := p[0], p[1]
+	if w.rt[j] == nil || w.rt[i] == nil || !w.nbr[j][i] {
+		return
+	}
+	// fresh incarnation of j first, so that its initial sequence number is recent
+	w.evRdown(j)
+	w.evRup(j)
+	js := []int{}
+	for k := 0; k < w.n; k++ {
+		if k != j && w.rt[k] != nil && w.nbr[k][j] {
+			js = append(js, k)
+		}
+	}
+	for _, k := range js {
+		w.evUp(j, k)
+		w.evFetch(j, k)
+	}
+	// quick table changes at j: it loses and re-learns everything behind i, several times
+	for c := 0; c < 6+w.r.Intn(6); c++ {
+		w.evDead(j, i)
+		w.evUp(j, i)
+		w.evFetch(j, i)
+	}
+	// i is up to date with this incarnation
+	s1 := w.rt[j].Vf18AdvertSeq()
+	w.evSync(i, j, s1)
+	w.evSnap(j)
+	w.evData(i, j, s1, false)
+	// j restarts at once, this time hearing only i
+	w.evRdown(j)
+	w.evRup(j)
+	w.evUp(j, i)
+	if w.r.Intn(2) == 0 {
+		w.evFetch(j, i)
+	}
+	s2 := w.rt[j].Vf18AdvertSeq()
+	w.evSync(i, j, s2)
+	w.evSnap(j)
+	w.evData(i, j, s2, false)
+	fmt.Fprintf(w.w, "chkpair %s %s\n", w.id(w.hash[i]), w.id(w.hash[j]))
+}
+
 // heartbeats: every neighbour of i keeps sending Sync Interests with an UNCHANGED sequence number; time passes;
 // the sweep must not remove anybody who was heard from within the dead interval
 func (w *world) pingScenario() {
@@ -949,7 +1006,9 @@ func (w *world) converge(clean bool) {
 }
 
 func (w *world) fault(edges [][2]int) {
-	switch w.r.Intn(9) {
+	switch w.r.Intn(10) {
+	case 9:
+		w.restartScenario()
 	case 7:
 		w.seqScenario()
 	case 8:
@@ -1354,6 +1413,8 @@ func TestReplay(t *testing.T) {
 					w.evRdown(idx(p[2]))
 				case "up":
 					w.evUp(idx(p[2]), idx(p[3]))
+				case "deadmore":
+					w.evDead(idx(p[2]), idx(p[3]))
 				case "dead":
 					// `ev dead i j` directly followed by `ev late i j`: the sweep overtook a pending ribUpdate
 					late := false
@@ -1396,6 +1457,10 @@ func TestReplay(t *testing.T) {
 				case "deliver":
 					w.evDeliver(idx(p[2]), idx(p[3]))
 				}
+			case "chkpair":
+				start()
+				w.obsAll()
+				fmt.Fprintln(out, line)
 			case "chk", "chkclean", "chkquiet", "chkfixed":
 				start()
 				w.obsAll()
